@@ -408,9 +408,59 @@ Definition ok (c : Z * option dtype * desc Z * Z * option (dtype * list Z * list
     ctx.note(f'normalisation correspondence: {len(lits)} descriptors ({n_acc} accepted)')
 
 
+def nox_data_kinds(N, two_d=False):
+    """data of every dtype / container / shape class used elsewhere, holding small integers."""
+    if two_d:
+        Mx, Nz = N
+        base = (np.arange(Mx * Nz).reshape(Mx, Nz) * 7 % 11).astype(float)
+    else:
+        base = (np.arange(N) * 7 % 11).astype(float)
+    out = [('float64', base)]
+    for nm, dt in (('float32', np.float32), ('float16', np.float16), ('int64', np.int64), ('int32', np.int32),
+                   ('int16', np.int16), ('int8', np.int8), ('uint8', np.uint8), ('bool', np.bool_)):
+        out.append((nm, base.astype(dt)))
+    out.append(('int-list', base.astype(int).tolist()))
+    out.append(('float-list', base.tolist()))
+    if two_d:
+        out += [('int32-MN1', base.astype(np.int32)[:, :, None]), ('float32-1MN', base.astype(np.float32)[None]),
+                ('int64-F', np.asfortranarray(base.astype(np.int64)))]
+    else:
+        out += [('int-tuple', tuple(base.astype(int).tolist())), ('int32-col', base.astype(np.int32)[:, None]),
+                ('float32-row', base.astype(np.float32)[None, :]), ('int64-strided', strided(base.astype(np.int64)))]
+    return out
+
+
+def exact_linspace(xv, N):
+    xv = np.asarray(xv)
+    return xv.dtype == np.float64 and xv.shape == (N,) and bool(np.array_equal(xv, np.linspace(-1, 1, N)))
+
+
+def corr_no_x_2d(ctx):
+    """_yxz_arrays / _Algorithm2D._register: created x and z for omitted x_data / z_data.  Returns all-exact."""
+    from pybaselines import Baseline2D
+    ok = True
+    for Mx, Nz in ((5, 7), (6, 4), (9, 9), (3, 12)):
+        xl, zl_ = np.linspace(-1, 1, Mx), np.linspace(-1, 1, Nz)
+        for tag, obj in nox_data_kinds((Mx, Nz), True):
+            for which, xo, zo in (('no-x-no-z', None, None), ('no-x', None, zl_), ('no-z', xl, None)):
+                fk = Baseline2D(xo, zo)
+                _, e = quiet(lambda: fk.noise_median(obj, half_window=1))
+                if e is not None:
+                    continue
+                ctx.case(('nox-created-xz', Mx, Nz, tag, which), nontrivial=True, kind=f'nox-created-xz:{tag}')
+                if not (exact_linspace(fk.x, Mx) and exact_linspace(fk.z, Nz)):
+                    ok = False
+                    ctx.fail(f'no_x:created-xz:data={tag}',
+                             f'Baseline2D({which}).noise_median(data of kind {tag}, shape {(Mx, Nz)}) has x dtype '
+                             f'{np.asarray(fk.x).dtype} / z dtype {np.asarray(fk.z).dtype} or values different from float64 '
+                             'np.linspace(-1, 1, len)', {'kind': 'nox-created-x', 'N': [Mx, Nz], 'tag': tag, 'two_d': True, 'which': which})
+    return ok
+
+
 def corr_no_x(ctx):
     from pybaselines import Baseline
     lits = []
+    ok2d = corr_no_x_2d(ctx)
     for N in list(range(1, ctx.n(24, 80))) + [101, 256]:
         y = np.arange(N, dtype=float)
         f0 = Baseline()
@@ -424,7 +474,20 @@ def corr_no_x(ctx):
             if any(v != int(v) for v in dom):
                 ctx.fail('no_x:x_domain-not-integer', f'x_domain {dom}', {'kind': 'nox-state', 'N': N})
         uniq = not bool(np.any(f1.x[1:] == f1.x[:-1]))
-        same_x = bool(np.array_equal(f0.x, f1.x))
+        same_x = bool(np.array_equal(f0.x, f1.x)) and f0.x.dtype == np.float64
+        # the x created for an omitted x_data must be float64 linspace(-1, 1, N) whatever the data's dtype/container
+        for tag, obj in nox_data_kinds(N):
+            fk = Baseline()
+            _, e = quiet(lambda: fk.noise_median(obj, half_window=1))
+            if e is not None:
+                continue
+            ctx.case(('nox-created-x', N, tag), nontrivial=N >= 2, kind=f'nox-created-x:{tag}')
+            if not exact_linspace(fk.x, N):
+                same_x = False
+                ctx.fail(f'no_x:created-x:data={tag}',
+                         f'Baseline().noise_median(data of kind {tag}, N={N}) created x of dtype {np.asarray(fk.x).dtype} '
+                         f'= {np.asarray(fk.x)[:4]}... instead of float64 np.linspace(-1, 1, N)',
+                         {'kind': 'nox-created-x', 'N': N, 'tag': tag, 'two_d': False})
         ctx.case(('nox-state', N), nontrivial=N >= 2, kind='nox-state')
         lits.append(f'({N - 1}%nat, {zl(f0._size)}, {zl(int(f0.x_domain[0]))}, {zl(int(f0.x_domain[1]))}, '
                     f'{coqbool(f0._sort_order is None)}, '
@@ -444,9 +507,13 @@ Definition ok (c : nat * Z * Z * Z * bool * Z * Z * Z * bool * bool * bool) : bo
     text += 'Eval vm_compute in (bad ok cases).\n'
     vals = ctx.coq_eval('nox', text)
     ctx.obligations.append('correspondence:no-x-state')
+    if not ok2d:
+        ctx.broke('correspondence:no-x-state', 'the x / z created by the 2-D prologue is not float64 linspace(-1, 1, len)')
     if vals is not None:
-        if is_zero(vals):
+        if is_zero(vals) and ok2d:
             ctx.discharged.append('correspondence:no-x-state')
+        elif is_zero(vals):
+            pass
         else:
             ctx.broke('correspondence:no-x-state', f'fitter state after the prologue differs from the model: {vals[0][:300]}')
 
@@ -661,6 +728,27 @@ class Oracle:
             if e is None:
                 got, e2 = quiet(lambda: call(None, data))
                 self.check('1d', name, 'no-x', got, e2, r[0], r[1], dict(case0, variant='no-x'))
+            # crossed: no x with every dtype / container / shape class of the data (always one float32 or integer class)
+            by_tag = {t: (o, rf, od) for t, o, rf, od in dvs}
+            pick = list(by_tag) if full else [['float32', 'int64', 'int-list'][(seedk + len(name)) % 3]] + rng.sample(
+                [t for t in by_tag if t not in ('float32', 'int64', 'int-list')], 1) + rng.sample(['float32', 'int64'], 1)
+            for t in dict.fromkeys(pick):
+                obj, ref, odt = by_tag[t]
+                r2, e = quiet(lambda: call(xl, ref))
+                if e is not None:
+                    continue
+                got, e2 = quiet(lambda: call(None, obj))
+                self.check('1d', name, f'no-x*data={t}', got, e2, r2[0], r2[1], dict(case0, variant=f'no-x*data={t}'),
+                           expect_dtype=odt)
+        # crossed: an x variant with a data variant
+        for _ in range(len(xvs) if full else 1):
+            xt, xo, xr = rng.choice(xvs)
+            t, obj, ref, odt = rng.choice(dvs)
+            r2, e = quiet(lambda: call(xr, ref))
+            if e is None:
+                got, e2 = quiet(lambda: call(xo, obj))
+                self.check('1d', name, f'{xt}*data={t}', got, e2, r2[0], r2[1], dict(case0, variant=f'{xt}*data={t}'),
+                           expect_dtype=odt)
         # lookup by name in mixed case
         mixed = ''.join(c.upper() if i % 2 == 0 else c for i, c in enumerate(name))
         got, e = quiet(lambda: call(x, data, lookup=mixed))
@@ -724,6 +812,15 @@ class Oracle:
             rest = {kk: v for kk, v in allv.items() if kk not in [p.name for p in fpar[:k]]}
             got, e = quiet(lambda: func(*pos[:k], **rest))
             self.check('1d', name, 'function-mixed', got, e, bb, bp, dict(case0, variant='function-mixed', npos=k))
+        # crossed: module-level function, x_data omitted, data of another dtype / container
+        if name != 'interp_pts':
+            t, obj, ref, odt = rng.choice([d for d in dvs if d[0] in ('float32', 'int64', 'int-list', 'list', 'col', 'row')]
+                                          or dvs)
+            r2, e = quiet(lambda: call(np.linspace(-1, 1, N), ref))
+            if e is None:
+                got, e2 = quiet(lambda: func(obj, **kw))
+                self.check('1d', name, f'function-no-x*data={t}', got, e2, r2[0], r2[1],
+                           dict(case0, variant=f'function-no-x*data={t}'), expect_dtype=odt)
         # defaults: function and method called with their own defaults
         if name not in ('interp_pts',):
             r, e = quiet(lambda: getattr(Baseline(x), name)(data))
@@ -787,6 +884,18 @@ class Oracle:
             for tag, xo, zo in (('no-x-no-z', None, None), ('no-x', None, zl_), ('no-z', xl, None)):
                 got, e2 = quiet(lambda: call(xo, zo, data))
                 self.check('2d', name, tag, got, e2, r[0], r[1], dict(case0, variant=tag))
+        strict = [d for d in dvs if f'data={d[0]}' not in LAYOUT_2D]
+        by_tag = {d[0]: d for d in strict}
+        pick = list(by_tag) if full else [['float32', 'int64'][(seedk + len(name)) % 2]] + rng.sample(
+            [t for t in by_tag if t not in ('float32', 'int64')], 1)
+        for t in pick:
+            _, obj, ref, odt = by_tag[t]
+            which, xo, zo = (('no-x-no-z', None, None), ('no-x', None, zl_), ('no-z', xl, None))[rng.randrange(3) if not full else 0]
+            r2, e = quiet(lambda: call(xl, zl_, ref))
+            if e is None:
+                got, e2 = quiet(lambda: call(xo, zo, obj))
+                self.check('2d', name, f'{which}*data={t}', got, e2, r2[0], r2[1], dict(case0, variant=f'{which}*data={t}'),
+                           expect_dtype=odt)
         mixed = ''.join(c.upper() if i % 2 == 1 else c for i, c in enumerate(name))
         got, e = quiet(lambda: call(x, z, data, lookup=mixed))
         self.check('2d', name, 'lookup-mixed-case', got, e, bb, bp, dict(case0, variant='lookup-mixed-case', lookup=mixed))
@@ -899,6 +1008,23 @@ def replay(rep):
         if not ctx.violations:
             print('replay: property holds on this input')
         return 1 if ctx.violations else 0
+    if case.get('kind') == 'nox-created-x':
+        from pybaselines import Baseline, Baseline2D
+        N = case['N']
+        if case.get('two_d'):
+            obj = dict(nox_data_kinds(tuple(N), True))[case['tag']]
+            xl, zl_ = np.linspace(-1, 1, N[0]), np.linspace(-1, 1, N[1])
+            xo, zo = {'no-x-no-z': (None, None), 'no-x': (None, zl_), 'no-z': (xl, None)}[case['which']]
+            f = Baseline2D(xo, zo)
+            f.noise_median(obj, half_window=1)
+            bad = not (exact_linspace(f.x, N[0]) and exact_linspace(f.z, N[1]))
+        else:
+            obj = dict(nox_data_kinds(N))[case['tag']]
+            f = Baseline()
+            f.noise_median(obj, half_window=1)
+            bad = not exact_linspace(f.x, N)
+        print('replay created x:', 'not float64 linspace(-1, 1, N)' if bad else 'property holds on this input')
+        return 1 if bad else 0
     if case.get('kind') == 'nox-one':
         from pybaselines import Baseline
         y1 = np.array([5.0])
